@@ -415,7 +415,7 @@ def descP (snap : Snap) (o : Opts) (st : ISt) (e : Entry) : Option (Outcome Entr
 def finP (o : Opts) (depth : Nat) (e : Entry) (st' : ISt) : Option (Outcome Entry) × ISt :=
   if depth < o.minDepth then (none, st')
   else if (o.files ∧ !e.file) ∨ (!o.files ∧ o.dirs ∧ !e.dir) then (none, st')
-  else if e.dir ∧ o.contentsFirst then (none, { st' with deferred := e :: st'.deferred })
+  else if e.dir ∧ o.contentsFirst then (none, { st' with deferred := (depth, e) :: st'.deferred })
   else (some (.ok e), st')
 
 def procP (snap : Snap) (o : Opts) (st : ISt) (e : Entry) : Option (Outcome Entry) × ISt :=
@@ -469,14 +469,19 @@ def stepCons : Entry → List Entry → Outcome Unit × List Entry := fun e acc 
 def drive (snap : Snap) (o : Opts) : Nat → ISt → List Entry → Outcome Unit × List Entry
   | 0, _, acc => (.hang, acc)
   | n + 1, st, acc =>
-    if o.contentsFirst ∧ st.iters.length < st.deferred.length then
-      match st.deferred with
-      | d :: ds => drive snap o n { st with deferred := ds } (d :: acc)
-      | [] => (.ok (), acc)
-    else
-      match st.iters with
-      | [] => (.ok (), acc)
-      | top :: below =>
+    match st.iters with
+    | [] =>
+      if o.contentsFirst then
+        match st.deferred with
+        | d :: ds => drive snap o n { st with deferred := ds } (d.2 :: acc)
+        | [] => (.ok (), acc)
+      else (.ok (), acc)
+    | top :: below =>
+      if o.contentsFirst ∧ deferredReady st.iters.length st.deferred then
+        match st.deferred with
+        | d :: ds => drive snap o n { st with deferred := ds } (d.2 :: acc)
+        | [] => (.ok (), acc)
+      else
         match top.items with
         | x :: xs =>
           match procP snap o { st with iters := { top with items := xs } :: below } (x.doFollow o.follow) with
@@ -504,26 +509,42 @@ theorem nextLoop_drive (snap : Snap) (o : Opts) : ∀ (n : Nat) (st : ISt) (acc 
   | n + 1, st, acc, r, acc', h, hr, 0, hg => by omega
   | n + 1, st, acc, r, acc', h, hr, g + 1, hg => by
     obtain ⟨started, openDesc, iters, deferred⟩ := st
-    by_cases hdef : o.contentsFirst = true ∧ iters.length < deferred.length
-    · cases deferred with
-      | nil => simp at hdef
-      | cons d ds =>
-        have hn : nextLoop snap o noPre (g + 1) ⟨started, openDesc, iters, d :: ds⟩ acc =
-            (some (.ok d), ⟨started, openDesc, iters, ds⟩, acc) := by
-          cases iters <;> simp only [nextLoop, hdef, and_self, if_true]
+    cases iters with
+    | nil =>
+      by_cases hcf : o.contentsFirst = true
+      · cases deferred with
+        | nil =>
+          have hn : nextLoop snap o noPre (g + 1) ⟨started, openDesc, [], []⟩ acc =
+              (none, ⟨started, openDesc, [], []⟩, acc) := by simp only [nextLoop, hcf, if_true]
+          rw [hn]
+          simp only [drive, hcf, if_true] at h
+          cases h
+          exact ⟨rfl, rfl, rfl⟩
+        | cons d ds =>
+          have hn : nextLoop snap o noPre (g + 1) ⟨started, openDesc, [], d :: ds⟩ acc =
+              (some (.ok d.2), ⟨started, openDesc, [], ds⟩, acc) := by simp only [nextLoop, hcf, if_true]
+          rw [hn]
+          simp only [drive, hcf, if_true] at h
+          exact ⟨rfl, rfl, n, Nat.lt_succ_self _, h⟩
+      · have hn : nextLoop snap o noPre (g + 1) ⟨started, openDesc, [], deferred⟩ acc =
+            (none, ⟨started, openDesc, [], deferred⟩, acc) := by
+          simp only [nextLoop, hcf, Bool.false_eq_true, if_false]
         rw [hn]
-        simp only [drive, hdef, and_self, if_true] at h
-        exact ⟨rfl, rfl, n, Nat.lt_succ_self _, h⟩
-    · cases iters with
-      | nil =>
-        have hn : nextLoop snap o noPre (g + 1) ⟨started, openDesc, [], deferred⟩ acc =
-            (none, ⟨started, openDesc, [], deferred⟩, acc) := by simp only [nextLoop, hdef, if_false]
-        rw [hn]
-        simp only [drive, hdef, if_false] at h
+        simp only [drive, hcf, Bool.false_eq_true, if_false] at h
         cases h
         exact ⟨rfl, rfl, rfl⟩
-      | cons top below =>
-        obtain ⟨tp, tc, items⟩ := top
+    | cons top below =>
+      by_cases hdef : o.contentsFirst = true ∧ deferredReady (top :: below).length deferred = true
+      · cases deferred with
+        | nil => simp [deferredReady] at hdef
+        | cons d ds =>
+          have hn : nextLoop snap o noPre (g + 1) ⟨started, openDesc, top :: below, d :: ds⟩ acc =
+              (some (.ok d.2), ⟨started, openDesc, top :: below, ds⟩, acc) := by
+            simp only [nextLoop, hdef, and_self, if_true]
+          rw [hn]
+          simp only [drive, hdef, and_self, if_true] at h
+          exact ⟨rfl, rfl, n, Nat.lt_succ_self _, h⟩
+      · obtain ⟨tp, tc, items⟩ := top
         cases items with
         | nil =>
           have hn : nextLoop snap o noPre (g + 1) ⟨started, openDesc, ⟨tp, tc, []⟩ :: below, deferred⟩ acc =
@@ -626,7 +647,7 @@ theorem loops_iff {o : Opts} (hfol : o.follow = true) (x : Entry) (its : List EI
   · rintro ⟨⟨h2, h1⟩, i, hi, hp⟩; exact ⟨h1, h2, i, hi, hp⟩
 
 theorem descP_spec {snap : Snap} (hwf : SnapWf snap) {o : Opts} (hfol : o.follow = true) (hord : OrdOk o)
-    {x : Entry} (hx : PresOk snap o x) (b : Bool) (od : Nat) (its : List EIter) (D : List Entry) :
+    {x : Entry} (hx : PresOk snap o x) (b : Bool) (od : Nat) (its : List EIter) (D : List (Nat × Entry)) :
     descP snap o ⟨b, od, its, D⟩ x =
       if loopsF o (its.map (·.path)) x then (some (.err .linkLooping), ⟨b, od, its, D⟩)
       else if entersF o x its.length then
@@ -671,13 +692,30 @@ def after (snap : Snap) (o : Opts) (n : Nat) (P : Option (Outcome Entry) × ISt)
   | (some .hang, _) => (.hang, acc)
   | (none, st2) => drive snap o n st2 acc
 
+/-- the deferred stack against a stack of `n` open directories, while their contents are being
+    processed: every deferred directory was found at a depth below `n` (it owns one of the open
+    frames, or an enclosing directory does) -/
+def DA (o : Opts) (n : Nat) (D : List (Nat × Entry)) : Prop :=
+  o.contentsFirst = true → ∀ d ∈ D, d.1 < n
+
+theorem DA.notReady {o : Opts} {n : Nat} {D : List (Nat × Entry)} (h : DA o (n + 1) D) :
+    ¬ (o.contentsFirst = true ∧ deferredReady (n + 1) D = true) := by
+  rintro ⟨hcf, hr⟩
+  cases D with
+  | nil => simp [deferredReady] at hr
+  | cons d ds =>
+    obtain ⟨dd, de⟩ := d
+    have := h hcf (dd, de) List.mem_cons_self
+    simp only [deferredReady, decide_eq_true_eq] at hr this
+    omega
+
 theorem drive_cons {snap : Snap} {o : Opts} (n : Nat) (b : Bool) (od : Nat)
-    (tp : FsPath) (tc : Bool) (x : Entry) (xs : List Entry) (below : List EIter) (D acc : List Entry)
-    (hD : o.contentsFirst = true → D.length = below.length + 1) :
+    (tp : FsPath) (tc : Bool) (x : Entry) (xs : List Entry) (below : List EIter) (D : List (Nat × Entry)) (acc : List Entry)
+    (hD : DA o (below.length + 1) D) :
     drive snap o (n + 1) ⟨b, od, ⟨tp, tc, x :: xs⟩ :: below, D⟩ acc =
       after snap o n (procP snap o ⟨b, od, ⟨tp, tc, xs⟩ :: below, D⟩ (x.doFollow o.follow)) acc := by
-  have hnd : ¬ (o.contentsFirst = true ∧ (⟨tp, tc, x :: xs⟩ :: below : List EIter).length < D.length) := by
-    rintro ⟨h1, h2⟩; have := hD h1; simp at h2; omega
+  have hnd : ¬ (o.contentsFirst = true ∧ deferredReady (⟨tp, tc, x :: xs⟩ :: below : List EIter).length D = true) := by
+    simpa using hD.notReady
   simp only [drive, hnd, if_false]
   unfold after
   generalize procP snap o ⟨b, od, ⟨tp, tc, xs⟩ :: below, D⟩ (x.doFollow o.follow) = P
@@ -687,41 +725,44 @@ theorem drive_cons {snap : Snap} {o : Opts} (n : Nat) (b : Bool) (od : Nat)
   | some oc => cases oc <;> rfl
 
 theorem drive_pop {snap : Snap} {o : Opts} (n : Nat) (b : Bool) (od : Nat)
-    (tp : FsPath) (tc : Bool) (below : List EIter) (D acc : List Entry)
-    (hD : o.contentsFirst = true → D.length = below.length + 1) :
+    (tp : FsPath) (tc : Bool) (below : List EIter) (D : List (Nat × Entry)) (acc : List Entry)
+    (hD : DA o (below.length + 1) D) :
     drive snap o (n + 1) ⟨b, od, ⟨tp, tc, []⟩ :: below, D⟩ acc =
       drive snap o n ⟨b, if tc then od else od - 1, below, D⟩ acc := by
-  have hnd : ¬ (o.contentsFirst = true ∧ (⟨tp, tc, []⟩ :: below : List EIter).length < D.length) := by
-    rintro ⟨h1, h2⟩; have := hD h1; simp at h2; omega
+  have hnd : ¬ (o.contentsFirst = true ∧ deferredReady (⟨tp, tc, []⟩ :: below : List EIter).length D = true) := by
+    simpa using hD.notReady
   simp only [drive, hnd, if_false]
 
 theorem drive_end {snap : Snap} {o : Opts} (n : Nat) (b : Bool) (od : Nat) (acc : List Entry) :
     drive snap o (n + 1) ⟨b, od, [], []⟩ acc = (.ok (), acc) := by
-  have hnd : ¬ (o.contentsFirst = true ∧ ([] : List EIter).length < ([] : List Entry).length) := by simp
-  simp only [drive, hnd, if_false]
+  simp only [drive]
+  split <;> rfl
 
+/-- a deferred directory found at the depth of the current stack is released at once -/
 theorem drive_def {snap : Snap} {o : Opts} (hcf : o.contentsFirst = true) (n : Nat) (b : Bool) (od : Nat)
-    (its : List EIter) (d : Entry) (ds acc : List Entry) (h : its.length < (d :: ds).length) :
-    drive snap o (n + 1) ⟨b, od, its, d :: ds⟩ acc = drive snap o n ⟨b, od, its, ds⟩ (d :: acc) := by
-  have hd : o.contentsFirst = true ∧ its.length < (d :: ds).length := ⟨hcf, h⟩
-  simp only [drive, hd, and_self, if_true]
+    (its : List EIter) (d : Entry) (ds : List (Nat × Entry)) (acc : List Entry) :
+    drive snap o (n + 1) ⟨b, od, its, (its.length, d) :: ds⟩ acc = drive snap o n ⟨b, od, its, ds⟩ (d :: acc) := by
+  cases its with
+  | nil => simp only [drive, hcf, if_true]
+  | cons top below =>
+    have hd : o.contentsFirst = true ∧ deferredReady (top :: below).length (((top :: below).length, d) :: ds) = true :=
+      ⟨hcf, by simp [deferredReady]⟩
+    simp only [drive, hd, and_self, if_true]
 
 /-- the option domain of the exactness theorem (as `ExactDom`, with links followed) -/
 def DomF (o : Opts) : Prop :=
   (o.contentsFirst = false ∧ KindOk o) ∨
   (o.contentsFirst = true ∧ o.minDepth = 0 ∧ o.files = false ∧ o.dirs = false)
 
-/-- the wider option domain after the repair of `process` (a directory is deferred only if it
-    passed the kind filter): `contents_first` with `min_depth = 0` and no filter or `dirs()` —
-    every directory passes, so the deferred stack still mirrors the stack of open directories -/
-def DomFW (o : Opts) : Prop :=
-  (o.contentsFirst = false ∧ KindOk o) ∨
-  (o.contentsFirst = true ∧ o.minDepth = 0 ∧ o.files = false)
+/-- the option domain after the repairs of `process` / `next` (a directory is deferred only if it
+    passed the kind filter and the depth window; it is released when the stack of open directories
+    is back at the depth it was found at): only the exclusiveness of the kind filters is left -/
+def DomFW (o : Opts) : Prop := KindOk o
 
 theorem DomF.toW {o : Opts} (h : DomF o) : DomFW o := by
-  rcases h with h | ⟨h1, h2, h3, _⟩
-  · exact Or.inl h
-  · exact Or.inr ⟨h1, h2, h3⟩
+  rcases h with h | ⟨_, _, h3, _⟩
+  · exact h.2
+  · unfold DomFW KindOk; simp [h3]
 
 theorem finP_pf {o : Opts} (hcf : o.contentsFirst = false) (hk : KindOk o) (d : Nat) (x : Entry) (s : ISt) :
     finP o d x s = (if selected o x d then some (.ok x) else none, s) := by
@@ -738,18 +779,23 @@ theorem finP_pf {o : Opts} (hcf : o.contentsFirst = false) (hk : KindOk o) (d : 
       · rfl
       · rename_i ha hb; exact absurd ⟨ha, hb⟩ this
 
-theorem finP_cf {o : Opts} (hcf : o.contentsFirst = true) (hmin : o.minDepth = 0) (hf : o.files = false)
+theorem finP_cf {o : Opts} (hcf : o.contentsFirst = true) (hk : KindOk o)
     (d : Nat) (x : Entry) (s : ISt) :
-    finP o d x s = if x.dir then (none, { s with deferred := x :: s.deferred })
-      else if o.dirs then (none, s) else (some (.ok x), s) := by
+    finP o d x s = if selected o x d then
+        (if x.dir then (none, { s with deferred := (d, x) :: s.deferred }) else (some (.ok x), s))
+      else (none, s) := by
   unfold finP
-  cases hxd : x.dir <;> cases hdd : o.dirs <;> simp [hcf, hmin, hf]
-
-theorem selected_cf {o : Opts} (hmin : o.minDepth = 0) (hf : o.files = false) (d : Nat)
-    (x : Entry) (hxd : x.dir = true) : selected o x d = true := by simp [selected, hmin, hf, hxd]
-
-theorem selected_cf_file {o : Opts} (hmin : o.minDepth = 0) (hf : o.files = false) (d : Nat)
-    (x : Entry) (hxd : x.dir = false) : selected o x d = !o.dirs := by simp [selected, hmin, hf, hxd]
+  have hsel := selected_model hk x d
+  by_cases hs : selected o x d = true
+  · obtain ⟨ha, hb⟩ := hsel.mpr hs
+    simp only [hs, if_true, ha, if_false, hb, hcf, and_true]
+  · have := mt hsel.mp hs
+    simp only [hs, Bool.false_eq_true, if_false]
+    split
+    · rfl
+    · split
+      · rfl
+      · rename_i ha hb; exact absurd ⟨ha, hb⟩ this
 
 theorem after_fin (snap : Snap) (o : Opts) (m : Nat) (c : Bool) (x : Entry) (s : ISt) (acc : List Entry) :
     after snap o m (if c then some (.ok x) else none, s) acc =
@@ -757,28 +803,29 @@ theorem after_fin (snap : Snap) (o : Opts) (m : Nat) (c : Bool) (x : Entry) (s :
   cases c <;> simp [after]
 
 /-- an entry that is not entered: yielded or not, at most one extra step (the deferred yield) -/
-theorem fin_leaf {snap : Snap} {o : Opts} (hdom : DomFW o) (b : Bool) (od : Nat) (its : List EIter) (D : List Entry)
-    (hD : o.contentsFirst = true → D.length = its.length) (x : Entry) :
+theorem fin_leaf {snap : Snap} {o : Opts} (hdom : DomFW o) (b : Bool) (od : Nat) (its : List EIter) (D : List (Nat × Entry))
+    (_hD : DA o its.length D) (x : Entry) :
     ∃ T, T ≤ 1 ∧ ∀ n acc, after snap o (n + T) (finP o its.length x ⟨b, od, its, D⟩) acc =
       drive snap o n ⟨b, od, its, D⟩ ((if selected o x its.length then [x] else []).reverse ++ acc) := by
-  rcases hdom with ⟨hcf, hk⟩ | ⟨hcf, hmin, hf⟩
-  · exact ⟨0, by omega, fun n acc => by rw [finP_pf hcf hk, after_fin]; rfl⟩
-  · rw [finP_cf hcf hmin hf]
-    cases hxd : x.dir with
+  cases hcf : o.contentsFirst with
+  | false => exact ⟨0, by omega, fun n acc => by rw [finP_pf hcf hdom, after_fin]; rfl⟩
+  | true =>
+    rw [finP_cf hcf hdom]
+    cases hsel : selected o x its.length with
+    | false => exact ⟨0, by omega, fun n acc => by simp [after]⟩
     | true =>
-      rw [selected_cf hmin hf _ x hxd]
-      refine ⟨1, by omega, fun n acc => ?_⟩
-      simp only [if_true, after]
-      rw [drive_def hcf _ _ _ _ _ _ _ (by have := hD hcf; simp; omega)]
-      simp
-    | false =>
-      rw [selected_cf_file hmin hf _ x hxd]
-      cases hdd : o.dirs <;> exact ⟨0, by omega, fun n acc => by simp [after]⟩
+      cases hxd : x.dir with
+      | true =>
+        refine ⟨1, by omega, fun n acc => ?_⟩
+        simp only [if_true, after]
+        rw [drive_def hcf]
+        simp
+      | false => exact ⟨0, by omega, fun n acc => by simp [after]⟩
 
 /-- an entry that is entered: what happens before its contents (`pre`) and after them (`post`) -/
-theorem fin_enter {snap : Snap} {o : Opts} (hdom : DomFW o) (b : Bool) (its : List EIter) (D : List Entry)
-    (hD : o.contentsFirst = true → D.length = its.length) (x : Entry) (hxd : x.dir = true) :
-    ∃ (D' pre post : List Entry), (o.contentsFirst = true → D'.length = its.length + 1) ∧ post.length ≤ 1 ∧
+theorem fin_enter {snap : Snap} {o : Opts} (hdom : DomFW o) (b : Bool) (its : List EIter) (D : List (Nat × Entry))
+    (hD : DA o its.length D) (x : Entry) (hxd : x.dir = true) :
+    ∃ (D' : List (Nat × Entry)) (pre post : List Entry), DA o (its.length + 1) D' ∧ post.length ≤ 1 ∧
       (∀ od1 fr m acc, after snap o m (finP o its.length x ⟨b, od1, fr :: its, D⟩) acc =
         drive snap o m ⟨b, od1, fr :: its, D'⟩ (pre.reverse ++ acc)) ∧
       (∀ od2 n acc, drive snap o (n + post.length) ⟨b, od2, its, D'⟩ acc =
@@ -787,21 +834,38 @@ theorem fin_enter {snap : Snap} {o : Opts} (hdom : DomFW o) (b : Bool) (its : Li
           else (if selected o x its.length then [x] else []) ++ below) = pre ++ below ++ post) ∧
       (∀ below : List Entry, (if o.contentsFirst && x.dir then below
           else (if selected o x its.length then [x] else []) ++ below) = pre ++ below) := by
-  rcases hdom with ⟨hcf, hk⟩ | ⟨hcf, hmin, hf⟩
-  · refine ⟨D, if selected o x its.length then [x] else [], [], (fun h => by rw [hcf] at h; cases h), by simp, ?_, ?_, ?_, ?_⟩
-    · intro od1 fr m acc; rw [finP_pf hcf hk, after_fin]
+  cases hcf : o.contentsFirst with
+  | false =>
+    refine ⟨D, if selected o x its.length then [x] else [], [], (fun h => by rw [hcf] at h; cases h), by simp, ?_, ?_, ?_, ?_⟩
+    · intro od1 fr m acc; rw [finP_pf hcf hdom, after_fin]
     · intro od2 n acc; rfl
-    · intro below; simp [hcf]
-    · intro below; simp [hcf]
-  · refine ⟨x :: D, [], [x], (fun _ => by have := hD hcf; simp; omega), by simp, ?_, ?_, ?_, ?_⟩
-    · intro od1 fr m acc
-      rw [finP_cf hcf hmin hf]
-      simp [hxd, after]
-    · intro od2 n acc
-      rw [List.length_singleton, drive_def hcf _ _ _ _ _ _ _ (by have := hD hcf; simp; omega)]
-      simp
-    · intro below; simp [hcf, hxd, selected_cf hmin hf _ x hxd]
-    · intro below; simp [hcf, hxd]
+    · intro below; simp
+    · intro below; simp
+  | true =>
+    have hD0 := hD hcf
+    cases hsel : selected o x its.length with
+    | false =>
+      refine ⟨D, [], [], (fun _ d hd => by have := hD0 d hd; omega), by simp, ?_, ?_, ?_, ?_⟩
+      · intro od1 fr m acc
+        rw [finP_cf hcf hdom]
+        simp [hsel, after]
+      · intro od2 n acc; rfl
+      · intro below; simp [hxd]
+      · intro below; simp [hxd]
+    | true =>
+      refine ⟨(its.length, x) :: D, [], [x], ?_, by simp, ?_, ?_, ?_, ?_⟩
+      · intro _ d hd
+        rcases List.mem_cons.mp hd with rfl | hd
+        · simp
+        · have := hD0 d hd; omega
+      · intro od1 fr m acc
+        rw [finP_cf hcf hdom]
+        simp [hsel, hxd, after]
+      · intro od2 n acc
+        rw [List.length_singleton, drive_def hcf]
+        simp
+      · intro below; simp [hxd]
+      · intro below; simp [hxd]
 
 /-- number of entries the full walk visits (an upper bound when an error cuts it short) -/
 def sizeF (snap : Snap) (o : Opts) : Nat → List FsPath → Entry → Nat → Nat
@@ -814,13 +878,13 @@ def sizeF (snap : Snap) (o : Opts) : Nat → List FsPath → Entry → Nat → N
            | some kids => (kids.map (fun c => sizeF snap o k (e.path :: chain) c (d + 1))).sum
          else 0)
 
-def SubOk (snap : Snap) (o : Opts) (P : Option (Outcome Entry) × ISt) (b : Bool) (its : List EIter) (D : List Entry)
+def SubOk (snap : Snap) (o : Opts) (P : Option (Outcome Entry) × ISt) (b : Bool) (its : List EIter) (D : List (Nat × Entry))
     (B : Nat) : WalkRes → Prop
   | (ys, none) => ∃ T od', T + 1 ≤ B ∧
       ∀ n acc, after snap o (n + T) P acc = drive snap o n ⟨b, od', its, D⟩ (ys.reverse ++ acc)
   | (ys, some e) => ∃ T, T + 1 ≤ B ∧ ∀ n acc, after snap o (n + T) P acc = (.err e, ys.reverse ++ acc)
 
-def SeqOk (snap : Snap) (o : Opts) (s : ISt) (b : Bool) (tp : FsPath) (tc : Bool) (below : List EIter) (D : List Entry)
+def SeqOk (snap : Snap) (o : Opts) (s : ISt) (b : Bool) (tp : FsPath) (tc : Bool) (below : List EIter) (D : List (Nat × Entry))
     (B : Nat) : WalkRes → Prop
   | (ys, none) => ∃ T od', T ≤ B ∧ ∀ n acc,
       drive snap o (n + T) s acc = drive snap o n ⟨b, od', ⟨tp, tc, []⟩ :: below, D⟩ (ys.reverse ++ acc)
@@ -830,8 +894,8 @@ section sim
 variable {snap : Snap} {o : Opts}
 
 theorem seq_sim (k : Nat) (b : Bool) (tp : FsPath) (tc : Bool) (below : List EIter)
-    (D : List Entry) (hD : o.contentsFirst = true → D.length = below.length + 1)
-    (ih : ∀ (x : Entry) (od : Nat) (its : List EIter), (o.contentsFirst = true → D.length = its.length) →
+    (D : List (Nat × Entry)) (hD : DA o (below.length + 1) D)
+    (ih : ∀ (x : Entry) (od : Nat) (its : List EIter), DA o its.length D →
       PresOk snap o x → mu snap o (its.map (·.path)) x its.length < k →
       SubOk snap o (procP snap o ⟨b, od, its, D⟩ x) b its D (3 * sizeF snap o k (its.map (·.path)) x its.length)
         (walkF snap o k (its.map (·.path)) x its.length)) :
@@ -875,8 +939,8 @@ theorem seq_sim (k : Nat) (b : Bool) (tp : FsPath) (tc : Bool) (below : List EIt
         simp
 
 theorem sub_sim (hwf : SnapWf snap) (hfol : o.follow = true) (hord : OrdOk o) (hdom : DomFW o) (b : Bool) :
-    ∀ (k : Nat) (D : List Entry) (x : Entry) (od : Nat) (its : List EIter),
-      (o.contentsFirst = true → D.length = its.length) → PresOk snap o x →
+    ∀ (k : Nat) (D : List (Nat × Entry)) (x : Entry) (od : Nat) (its : List EIter),
+      DA o its.length D → PresOk snap o x →
       mu snap o (its.map (·.path)) x its.length < k →
       SubOk snap o (procP snap o ⟨b, od, its, D⟩ x) b its D (3 * sizeF snap o k (its.map (·.path)) x its.length)
         (walkF snap o k (its.map (·.path)) x its.length)
@@ -1003,7 +1067,7 @@ theorem runIter_exact {snap : Snap} (hwf : SnapWf snap) {o : Opts} (hfol : o.fol
     ∀ f, fuelNeed snap o rootE ≤ f → runIter snap o noPre rootE stepCons f {} [] =
       (specOutcome (entriesSpecF snap o rootE).2, (entriesSpecF snap o rootE).1.reverse) := by
   have hx : PresOk snap o (present o rootE) := ⟨rootE, hr, rfl⟩
-  have hsub := sub_sim hwf hfol hord hdom true (fuelF snap) [] (present o rootE) 0 [] (fun _ => rfl) hx
+  have hsub := sub_sim hwf hfol hord hdom true (fuelF snap) [] (present o rootE) 0 [] (fun _ d hd => by cases hd) hx
     (mu_lt_fuelF _ _ _ _ _)
   simp only [List.map_nil, List.length_nil] at hsub
   unfold entriesSpecF fuelNeed
@@ -1264,13 +1328,13 @@ theorem finP_cases (o : Opts) (d : Nat) (x : Entry) (s : ISt) :
   · split
     · exact ⟨none, s.deferred, rfl, Or.inl rfl, by omega⟩
     · split
-      · exact ⟨none, x :: s.deferred, rfl, Or.inl rfl, by simp⟩
+      · exact ⟨none, (d, x) :: s.deferred, rfl, Or.inl rfl, by simp⟩
       · exact ⟨some (.ok x), s.deferred, rfl, Or.inr rfl, by omega⟩
 
 /-- one `process`: an error, or a state of smaller potential (by at least one after the item is
     taken from its frame) -/
 theorem procP_pot {snap : Snap} (hwf : SnapWf snap) {o : Opts} (hfol : o.follow = true) (hord : OrdOk o)
-    {x : Entry} (hx : PresOk snap o x) (b : Bool) (od : Nat) (its : List EIter) (D : List Entry)
+    {x : Entry} (hx : PresOk snap o x) (b : Bool) (od : Nat) (its : List EIter) (D : List (Nat × Entry))
     (hok : FramesOkF snap o its) :
     (∃ k s', procP snap o ⟨b, od, its, D⟩ x = (some (.err k), s')) ∨
     (∃ r st2, procP snap o ⟨b, od, its, D⟩ x = (r, st2) ∧ (r = none ∨ r = some (.ok x)) ∧
@@ -1319,16 +1383,23 @@ theorem drive_term {snap : Snap} (hwf : SnapWf snap) {o : Opts} (hfol : o.follow
   | 0, _, _, _, h => by omega
   | n + 1, st, acc, hok, hpot => by
     obtain ⟨b, od, iters, D⟩ := st
-    by_cases hdef : o.contentsFirst = true ∧ iters.length < D.length
-    · cases D with
-      | nil => simp at hdef
-      | cons d ds =>
-        simp only [drive, hdef, and_self, if_true]
-        exact drive_term hwf hfol hord n _ _ hok (by simp only [potSt, List.length_cons] at hpot ⊢; omega)
-    · cases iters with
-      | nil => simp only [drive, hdef, if_false]; exact ⟨_, _, rfl, by simp⟩
-      | cons top below =>
-        obtain ⟨tp, tc, items⟩ := top
+    cases iters with
+    | nil =>
+      by_cases hcf : o.contentsFirst = true
+      · cases D with
+        | nil => simp only [drive, hcf, if_true]; exact ⟨_, _, rfl, by simp⟩
+        | cons d ds =>
+          simp only [drive, hcf, if_true]
+          exact drive_term hwf hfol hord n _ _ hok (by simp only [potSt, List.length_cons] at hpot ⊢; omega)
+      · simp only [drive, hcf, Bool.false_eq_true, if_false]; exact ⟨_, _, rfl, by simp⟩
+    | cons top below =>
+      by_cases hdef : o.contentsFirst = true ∧ deferredReady (top :: below).length D = true
+      · cases D with
+        | nil => simp [deferredReady] at hdef
+        | cons d ds =>
+          simp only [drive, hdef, and_self, if_true]
+          exact drive_term hwf hfol hord n _ _ hok (by simp only [potSt, List.length_cons] at hpot ⊢; omega)
+      · obtain ⟨tp, tc, items⟩ := top
         cases items with
         | nil =>
           simp only [drive, hdef, if_false]
@@ -1391,14 +1462,18 @@ theorem nextLoop_w {σ} (snap : Snap) (o : Opts) : ∀ (g : Nat) (st : ISt) (w :
   | 0, _, _ => rfl
   | g + 1, st, w => by
     obtain ⟨started, openDesc, iters, deferred⟩ := st
-    by_cases hdef : o.contentsFirst = true ∧ iters.length < deferred.length
-    · cases deferred with
-      | nil => simp at hdef
-      | cons d ds => cases iters <;> simp only [nextLoop, hdef, and_self, if_true]
-    · cases iters with
-      | nil => simp only [nextLoop, hdef, if_false]
-      | cons top below =>
-        obtain ⟨tp, tc, items⟩ := top
+    cases iters with
+    | nil =>
+      simp only [nextLoop]
+      split
+      · split <;> rfl
+      · rfl
+    | cons top below =>
+      by_cases hdef : o.contentsFirst = true ∧ deferredReady (top :: below).length deferred = true
+      · cases deferred with
+        | nil => simp [deferredReady] at hdef
+        | cons d ds => simp only [nextLoop, hdef, and_self, if_true]
+      · obtain ⟨tp, tc, items⟩ := top
         cases items with
         | nil =>
           simp only [nextLoop, hdef, if_false]
